@@ -226,6 +226,15 @@ pub struct World {
     keep_dir: bool,
 }
 
+/// A task between `pump_claim` and `pump_finish`.
+pub struct Claimed {
+    pub key: Box<krill::commons::storage::Ident>,
+    pub name: String,
+    task: Option<Task>,
+    res: Option<Result<TaskResult, String>>,
+    held: bool,
+}
+
 #[derive(Debug)]
 pub struct Crash {
     pub what: String,
@@ -247,10 +256,13 @@ fn panic_msg(e: Box<dyn std::any::Any + Send>) -> String {
 }
 
 static LAST_PANIC_LOC: std::sync::Mutex<Option<String>> = std::sync::Mutex::new(None);
+/// Number of panics raised in this process so far (any thread).
+pub static PANIC_COUNT: std::sync::atomic::AtomicU64 = std::sync::atomic::AtomicU64::new(0);
 
 /// Called from the panic hook: remembers where the last panic was raised
 /// (crate-relative path and line), the stable part of a panic's identity.
 pub fn note_panic_location(loc: Option<String>) {
+    PANIC_COUNT.fetch_add(1, Ordering::SeqCst);
     let loc = loc.map(|l| match l.find("/rpki-") {
         Some(i) if l.contains(".cargo/registry") => l[i + 1..].to_string(),
         _ => match l.find(".cargo/registry/src/") {
@@ -559,6 +571,14 @@ impl World {
     /// Processes one due task like `scheduler::run` does. Returns the task's
     /// storage key, or None if no task was due.
     pub fn pump_one(&mut self) -> Result<Option<String>, Crash> {
+        let Some(mut c) = self.pump_claim()? else { return Ok(None) };
+        self.pump_process(&mut c)?;
+        self.pump_finish(c).map(Some)
+    }
+
+    /// First third of `pump_one`: the scheduler claims the next due task
+    /// (it is "running" from now on).
+    pub fn pump_claim(&mut self) -> Result<Option<Claimed>, Crash> {
         let rt = self.rt.clone();
         let Some((key, value)) = guarded(|| rt.tasks().pop())? else {
             return Ok(None);
@@ -571,7 +591,7 @@ impl World {
         if self.hold_types.iter().any(|h| name.contains(h.as_str())) {
             let rt = self.rt.clone();
             let _ = guarded(|| rt.tasks().reschedule(&key, krill::server::mq::in_hours(6)))?;
-            return Ok(Some(format!("held:{name}")));
+            return Ok(Some(Claimed { key, name, task: None, res: None, held: true }));
         }
         let task: Task = match serde_json::from_value(value) {
             Ok(t) => t,
@@ -579,9 +599,25 @@ impl World {
                 return Err(Crash { what: format!("EXIT: task {key} cannot be parsed: {e}"), exit_sites: vec![] })
             }
         };
+        Ok(Some(Claimed { key, name, task: Some(task), res: None, held: false }))
+    }
+
+    /// Second third: the task does its work.
+    pub fn pump_process(&mut self, c: &mut Claimed) -> Result<(), Crash> {
+        let Some(task) = c.task.take() else { return Ok(()) };
         let slow = self.slow.clone_slow();
         let started = self.started;
-        let res = guarded(|| verif_process_task(&slow, task, started))?;
+        c.res = Some(guarded(|| verif_process_task(&slow, task, started))?.map_err(|e| e.to_string()));
+        Ok(())
+    }
+
+    /// Last third: the scheduler records the outcome in the queue.
+    pub fn pump_finish(&mut self, c: Claimed) -> Result<String, Crash> {
+        let Claimed { key, name, res, held, .. } = c;
+        if held {
+            return Ok(format!("held:{name}"));
+        }
+        let Some(res) = res else { return Ok(name) };
         let rt = self.rt.clone();
         let fin = guarded(|| match res {
             Ok(TaskResult::Done) => rt.tasks().finish(&key),
@@ -595,7 +631,7 @@ impl World {
                 exit_sites: vec![],
             });
         }
-        Ok(Some(name))
+        Ok(name)
     }
 
     /// Runs due tasks until nothing is due within the next `lookahead_s`
